@@ -50,6 +50,11 @@ def flood_scenarios():
                                  "steps": [{"kind": "data", "items": 1, "dt": 0}] + [{"kind": "data", "items": 1, "dt": dt} for _ in frames] + [{"kind": "outlived"}]}],
                       "connect_kwargs": dict(cfg), "react": {"ready#0": [["close"]]} if closing else {}}
                 out.append(sc)
+    # the application calls close() again at every Poll while the server stays silent: the close time-out runs from the first call
+    for poll, ct in ((2, 5), (5, 7), (1, 3)):
+        out.append({"conns": [{"stream": [{"t": "http", "v": "ok"}], "steps": [{"kind": "data", "items": 1, "dt": 0}, {"kind": "silence"}]}],
+                    "connect_kwargs": {"poll": poll, "ping_rate": 0, "ping_timeout": None, "close_timeout": ct, "auto_pong": True},
+                    "react": {"poll#%d" % k: [["close"]] for k in range(60)}, "max_waits": 60})
     return out
 
 
